@@ -21,9 +21,12 @@
      range - so the hypotheses of the theorems above are met in every reachable state: C09_db_scan_stable_put/del/cdel
      state scan stability for the very model the correspondence check runs against the implementation, for byte keys
      and integer keys with node size and pivot regenerated from the source and no hypothesis left.
-   NOT proved (open): backward scans after a mutation (the PREV direction of the same statements). *)
+   - C09_scan_prev_stable_put / _del and C09_db_rscan_stable_bytes: the same for the BACKWARD direction (what PREV still
+     delivers is everything in front of the cursor's record; a put adds the new record iff it lies in front, a delete
+     removes the deleted key; a cursor whose own record was deleted delivers exactly what it would have delivered).
+   Open: real-number and compound comparators enter these theorems as hypotheses (byte and integer keys are proved). *)
 Require Import List ZArith Lia. Import ListNotations.
-Require Import IW.KV.Node IW.KV.Spec IW.KV.Node_proofs IW.KV.Cursor IW.KV.Cursor_proofs IW.KV.Stable_proofs IW.KV.ScanStable_proofs IW.KV.StableDel_proofs
+Require Import IW.KV.Node IW.KV.Spec IW.KV.Node_proofs IW.KV.Cursor IW.KV.Cursor_proofs IW.KV.Stable_proofs IW.KV.ScanStable_proofs IW.KV.StablePrev_proofs IW.KV.StableDel_proofs
                IW.KV.Inv_proofs IW.KV.DbInv_proofs IW.KV.Keys IW.KV.Keys_proofs IW.KV.Inst IW.Gen.Facts.
 
 (* _sblk_addkv/_sblk_addkv2: `if (cnpos >= idx) cnpos++` keeps the cursor on its record, for every node content,
@@ -324,6 +327,78 @@ Proof.
     exact (db_scan_stable_cdel vnummode vnum_cmp_lt_eq vnum_cmp_antisym vnum_cmp_trans d dslot d' slot k0 v0 fuel Hinv Hp Hon Hf).
 Qed.
 Print Assumptions C09_db_scan_stable_intkeys.
+
+(* ---- the backward direction ---- *)
+Theorem C09_scan_prev_stable_put :
+  forall (K V : Type) (cmp : K -> K -> comparison) (IDXNUM PIVOT : nat) (upd : V -> V -> option V),
+    (forall a b c : K, cmp a b = Lt -> cmp b c = Eq -> cmp a c = Lt) ->
+    (forall a b : K, cmp a b = CompOpp (cmp b a)) ->
+    (forall a b c : K, cmp a b = Lt -> cmp b c = Lt -> cmp a c = Lt) ->
+    1 <= PIVOT < IDXNUM ->
+    forall fresh (c : chain K V) k v noover newok c' ch cur id p k0 v0 fuel,
+    NodeInv K V cmp IDXNUM c -> ids_unique K V c -> ~ In fresh (map fst c) ->
+    put_chain K V cmp IDXNUM PIVOT upd fresh c k v noover newok = (POk, c', ch) ->
+    node_cursor K V c cur id p -> c_skip cur = 0%Z -> cursor_read K V c cur = Some (k0, v0) ->
+    S (length (flat K V c)) < fuel ->
+    let cur' := fix_cursor K V IDXNUM PIVOT c' ch cur in
+    exists nv, (s_get K V cmp (flat K V c) k = None -> nv = v) /\
+      rev (scan_prev K V IDXNUM fuel c' cur') =
+      match cmp k k0 with
+      | Lt => s_put K V cmp (rev (scan_prev K V IDXNUM fuel c cur)) k nv
+      | _ => rev (scan_prev K V IDXNUM fuel c cur)
+      end.
+Proof. exact scan_prev_stable_put. Qed.
+Print Assumptions C09_scan_prev_stable_put.
+
+Theorem C09_scan_prev_stable_del :
+  forall (K V : Type) (cmp : K -> K -> comparison) (IDXNUM PIVOT : nat),
+    (forall a b c : K, cmp a b = Lt -> cmp b c = Eq -> cmp a c = Lt) ->
+    (forall a b : K, cmp a b = CompOpp (cmp b a)) ->
+    (forall a b c : K, cmp a b = Lt -> cmp b c = Lt -> cmp a c = Lt) ->
+    1 <= PIVOT < IDXNUM ->
+    forall k (c c' : chain K V) ch cur id p k0 v0 fuel,
+    del_chain K V cmp c k = Some (c', ch) ->
+    NodeInv K V cmp IDXNUM c -> ids_unique K V c ->
+    node_cursor K V c cur id p -> c_skip cur = 0%Z -> cursor_read K V c cur = Some (k0, v0) ->
+    S (length (flat K V c)) < fuel ->
+    rev (scan_prev K V IDXNUM fuel c' (fix_cursor K V IDXNUM PIVOT c' ch cur)) =
+    s_del K V cmp (rev (scan_prev K V IDXNUM fuel c cur)) k.
+Proof.
+  intros K V cmp IDXNUM PIVOT H1 H2 H3 H4 k c c' ch cur id p k0 v0 fuel Hd.
+  apply (scan_prev_stable_del K V cmp IDXNUM PIVOT H1 H2 H3 H4 k c c' ch cur id p k0 v0 fuel).
+  apply (del_chain_effect K V cmp IDXNUM PIVOT H4). exact Hd.
+Qed.
+Print Assumptions C09_scan_prev_stable_del.
+
+(* every reachable state, byte keys, backward direction: put, delete by key, delete through any cursor *)
+Theorem C09_db_rscan_stable_bytes :
+  forall (ops : list dbop) slot k0 v0 fuel,
+    let d := fold_left db_step ops (db_empty plain) in
+    on_record d slot k0 v0 -> S (length (flat key value (d_chain d))) < fuel ->
+    (forall k comp v flags ph d', db_put d k comp v flags ph = (ROk, d') ->
+       exists ek nv, eff_key plain k comp = (ROk, ek) /\
+         rest_of_rscan d' slot fuel =
+         match cmp_of plain ek k0 with
+         | Lt => s_put key value (cmp_of plain) (rest_of_rscan d slot fuel) ek nv
+         | _ => rest_of_rscan d slot fuel
+         end) /\
+    (forall k comp d', db_del d k comp = (ROk, d') ->
+       exists ek, eff_key plain k comp = (ROk, ek) /\
+                  rest_of_rscan d' slot fuel = s_del key value (cmp_of plain) (rest_of_rscan d slot fuel) ek) /\
+    (forall dslot d', db_cdel d dslot = (ROk, d') ->
+       exists dk, rest_of_rscan d' slot fuel = s_del key value (cmp_of plain) (rest_of_rscan d slot fuel) dk).
+Proof.
+  intros ops slot k0 v0 fuel d Hon Hf.
+  pose proof (C09_db_inv_reachable_bytes ops) as Hinv. fold d in Hinv.
+  split; [|split].
+  - intros k comp v flags ph d' Hp.
+    exact (db_rscan_stable_put plain plain_cmp_lt_eq plain_cmp_antisym plain_cmp_trans d k comp v flags ph d' slot k0 v0 fuel Hinv Hp Hon Hf).
+  - intros k comp d' Hp.
+    exact (db_rscan_stable_del plain plain_cmp_lt_eq plain_cmp_antisym plain_cmp_trans d k comp d' slot k0 v0 fuel Hinv Hp Hon Hf).
+  - intros dslot d' Hp.
+    exact (db_rscan_stable_cdel plain plain_cmp_lt_eq plain_cmp_antisym plain_cmp_trans d dslot d' slot k0 v0 fuel Hinv Hp Hon Hf).
+Qed.
+Print Assumptions C09_db_rscan_stable_bytes.
 
 (* Non-vacuity at this level: 40 puts (two splits), a cursor positioned by EQ stands on a record in a reachable state *)
 Definition exdb_ops : list dbop :=
